@@ -43,7 +43,7 @@ fn opt_text(class: &str, r: &mut Rng) -> (String, i32) {
             (t, v)
         }
         "overflow" => (r.pick(&["2147483648", "-2147483649", "99999999999999999999", "1e3", "0x10", " 5", "5 ", "1_000"]).to_string(), 0),
-        "keyword" => (r.pick(&["grayscale", "two-sided-long-edge", "TRUE", "False", "", "iso_a4_210x297mm", "naïve", "1-3,7", "standard,none",
+        "keyword" => (r.pick(&["grayscale", "two-sided-long-edge", "1-5", "2-2", "10-20", "600dpi", "3x4", "TRUE", "False", "", "iso_a4_210x297mm", "naïve", "1-3,7", "standard,none",
             "a b", "semi;colon", "q\"uote", "tab\there", "-", "--x", "1.5", "１２"]).to_string(), 0),
         "eqinside" => (r.pick(&["a=b", "=", "x==y", "k=v=w"]).to_string(), 0),
         _ => (String::new(), 0),
@@ -113,8 +113,10 @@ pub fn run(a: &Args) {
             continue;
         }
         let mut r = Rng::new(seed.wrapping_mul(48271).wrapping_add(ci as u64));
+        // variant choices are keyed on a hash of the case index: a plain modulus aliases with the stride that samples the cases
+        let vi = crate::mix(ci);
         let ar = &c["args"];
-        let target = if ci % 2 == 0 { format!("http://127.0.0.1:{}/printers/test?q={}", server.port, ci) } else { format!("ipp://127.0.0.1:{}/ipp/print", server.port) };
+        let target = if vi % 2 == 0 { format!("http://127.0.0.1:{}/printers/test?q={}", server.port, vi) } else { format!("ipp://127.0.0.1:{}/ipp/print", server.port) };
         let size = match ar["size"].as_str().unwrap() {
             "empty" => 0,
             "small" => 1 + r.below(2000),
@@ -126,18 +128,18 @@ pub fn run(a: &Args) {
                 }
             }
         };
-        let doc = pattern(size, ci as u32);
+        let doc = pattern(size, vi as u32);
         let mut argv: Vec<String> = vec![];
         let header = if ar["header"].as_bool().unwrap() { Some(("x-vh-test".to_string(), format!("v{}", ci))) } else { None };
         if let Some((k, v)) = &header {
-            if ci % 3 == 0 {
+            if vi % 3 == 0 {
                 // a malformed header argument (no '=') next to the well-formed one
                 argv.push("-H".into());
                 argv.push("malformed-header-argument".into());
             }
             argv.push("-H".into());
             argv.push(format!("{}={}", k, v));
-            if ci % 5 == 0 {
+            if vi % 5 == 0 {
                 argv.push("-H".into());
                 argv.push("x-second=2".into());
             }
@@ -148,7 +150,7 @@ pub fn run(a: &Args) {
         }
         let from_file = ar["input"].as_str().unwrap() == "file";
         // every 23rd file session names a file that does not exist: nothing may be printed, exit status non-zero
-        let missing = from_file && ci % 23 == 7;
+        let missing = from_file && vi % 23 == 7;
         let path = format!("{tmp}/doc-{ci}.bin");
         if from_file {
             if !missing {
@@ -172,7 +174,7 @@ pub fn run(a: &Args) {
         let opts: Vec<J> = ar["opts"].as_array().cloned().unwrap_or_default();
         for (oi, o) in opts.iter().enumerate() {
             let class = o.as_str().unwrap();
-            let key = keys[(ci + oi * 2) % keys.len()];
+            let key = keys[(vi + oi * 2) % keys.len()];
             let (text, ival) = opt_text(class, &mut r);
             let arg = if class == "noeq" { format!("{}-novalue", key) } else { format!("{}={}", key, text) };
             argv.push("-o".into());
@@ -193,7 +195,7 @@ pub fn run(a: &Args) {
         argv.push(target.clone());
         {
             let mut g = cur.lock().unwrap();
-            *g = (c["script"].clone(), 0, (ci as u32).wrapping_add(seed as u32));
+            *g = (c["script"].clone(), 0, (vi as u32).wrapping_add(seed as u32));
         }
         server.take_seen();
         let side = json!({"argv": argv, "script": c["script"], "doc_len": doc.len(), "stdin": !from_file});
@@ -273,8 +275,10 @@ pub fn run(a: &Args) {
     if let Some(p) = a.get("cmdcases") {
         for (ci, c) in read_cases(p).iter().enumerate() {
             let mut r = Rng::new(seed.wrapping_mul(16807).wrapping_add(ci as u64));
+        // variant choices are keyed on a hash of the case index: a plain modulus aliases with the stride that samples the cases
+        let vi = crate::mix(ci);
             let cmd = c["cmd"].as_str().unwrap();
-            let target = if ci % 2 == 0 { format!("ipp://127.0.0.1:{}/printers/q{}", server.port, ci) } else { format!("http://localhost:{}/ipp?x={}", server.port, ci) };
+            let target = if vi % 2 == 0 { format!("ipp://127.0.0.1:{}/printers/q{}", server.port, vi) } else { format!("http://localhost:{}/ipp?x={}", server.port, vi) };
             let mut argv: Vec<String> = vec![cmd.to_string()];
             let user = if c["user"].as_bool().unwrap() { Some(r.pick(&["alice", "bob smith", "üser"]).to_string()) } else { None };
             let jobid: i32 = *r.pick(&[1i32, 0, -1, 2147483647, 42]);
@@ -287,7 +291,7 @@ pub fn run(a: &Args) {
             }
             let mut attrs = vec![];
             for k in 0..c["nattrs"].as_u64().unwrap() as usize {
-                let an = ["printer-state", "all", "media-supported"][(ci + k) % 3];
+                let an = ["printer-state", "all", "media-supported"][(vi + k) % 3];
                 argv.push("-a".into());
                 argv.push(an.to_string());
                 attrs.push(json!({"s": hexs(an.as_bytes())}));
@@ -295,7 +299,7 @@ pub fn run(a: &Args) {
             argv.push(target.clone());
             {
                 let mut g = cur.lock().unwrap();
-                *g = (json!({"reply": c["reply"]}), 0, (ci as u32).wrapping_add(seed as u32));
+                *g = (json!({"reply": c["reply"]}), 0, (vi as u32).wrapping_add(seed as u32));
             }
             server.take_seen();
             let side = json!({"argv": argv, "reply": c["reply"]});
